@@ -65,6 +65,29 @@ Theorem C07_update_client_accept_sound :
 Proof. exact update_accept_sound. Qed.
 Print Assumptions C07_update_client_accept_sound.
 
+(** ... and for every configuration ClientState.Validate admits (trust level in
+    [1/3, 1] with fields at most MaxInt64 — fix d656e11) the trust-level clause of
+    a NON-adjacent accepted header holds without side condition. *)
+Theorem C07_accept_sound_validated :
+  forall valset_hash header_hash verify_sig cs s hdr now r,
+  wf_header hdr -> client_validate cs = true ->
+  check_header_and_update_state valset_hash header_hash verify_sig cs s hdr now = Ok r ->
+  forall sh h c tvals ttot,
+  h_signed hdr = Some sh -> sh_header sh = Some h -> sh_commit sh = Some c ->
+  valset_from_proto (h_trusted_vals hdr) = Ok (tvals, ttot) ->
+  hd_height h <> Z.of_N (h_hgt (h_trusted_height hdr)) + 1 ->
+  Z.of_N (cs_tl_den cs) * signed_trusted verify_sig (hd_chain_id h) c (hash_input tvals)
+  > Z.of_N (cs_tl_num cs) * total_of (hash_input tvals).
+Proof. exact accept_sound_validated. Qed.
+Print Assumptions C07_accept_sound_validated.
+
+Theorem C07_validate_trust_level :
+  forall cs, client_validate cs = true ->
+  (cs_tl_num cs < 9223372036854775808)%N /\ (cs_tl_den cs < 9223372036854775808)%N /\
+  (0 < cs_tl_den cs)%N /\ (cs_tl_den cs <= 3 * cs_tl_num cs)%N /\ (cs_tl_num cs <= cs_tl_den cs)%N.
+Proof. exact client_validate_trust_level. Qed.
+Print Assumptions C07_validate_trust_level.
+
 (** O1 made precise: if more than 2/3 of a validator set signed (what an adjacent
     header proves about the stored next set, its hash being the stored one), then
     more than ANY trust level <= 2/3 of that set signed in the sense of the
